@@ -125,7 +125,7 @@ def _paths(fwd, inv):
     return f
 
 
-def judge(dist, fwd, inv, rt, add, tag, keys, xs, cond, counters, support=None):
+def judge(dist, fwd, inv, rt, add, tag, keys, xs, cond, counters, support=None, total=False):
     """Returns transitions. ``support`` = (lo, hi) arrays of a box-supported base: an inverse image outside the box must give
     exactly -inf (judged without the base's own public log_prob, which shares log_prob's NaN / infinity handling)."""
     import jax.numpy as jnp
@@ -156,6 +156,11 @@ def judge(dist, fwd, inv, rt, add, tag, keys, xs, cond, counters, support=None):
             if inv:
                 tr += 1
                 counters["nontrivial"] = counters.get("nontrivial", 0) + int(abs(float(o["ld"])) > 1e-3)
+                if total and not np.all(np.isfinite(o["z"])) and np.all(np.abs(np.asarray(x)) <= 1e3):
+                    # the codomain is all of R^n (grammar type system): every moderate x HAS an inverse image; a NaN there makes log_prob
+                    # -inf at a point where the density is positive (both sides of the comparison below would agree on that -inf)
+                    add(f"{tag}|no-inverse-image", f"{tag}: the bijection's inverse at x = {np.asarray(x).tolist()} is {o['z'].tolist()}, so log_prob(x) = {float(o['lp_x'])!r} "
+                                                   f"although x is an image point (codomain R^n)")
                 if support is not None and np.all(np.isfinite(o["z"])):
                     lo_, hi_ = support
                     if np.any((o["z"] < lo_ - 1e-9) | (o["z"] > hi_ + 1e-9)):
@@ -217,9 +222,15 @@ def run_case(case):
                 support = (np.asarray(base.minval, float), np.asarray(base.maxval, float))
                 if not np.any(np.isin(ii.cod, ["P", "X"])):
                     xs += [np.full(ii.shape, 60.0), np.full(ii.shape, -45.0)]  # far outside any image of the base's box
+            # every constant the bijection's formulas compare against (interval ends, knots, +-max_val, ...) as a data point
+            from mc import battery as bt
+
+            consts = sorted({float(c_) for c_ in bt.boundary_constants(b) if np.isfinite(c_) and abs(c_) <= 1e3}, key=lambda v: (abs(v), v))
+            if not np.any(np.isin(ii.cod, ["P", "X"])):
+                xs += [np.full(ii.shape, c_) for c_ in consts[:8]]
             rt = 1e-3 if (ii.num_fwd or ii.num_inv) else 1e-9
             try:
-                tr += judge(dist, ii.fwd, ii.inv, rt, add, tag, keys, xs, cond, counters, support)
+                tr += judge(dist, ii.fwd, ii.inv, rt, add, tag, keys, xs, cond, counters, support, total=bool(np.all(ii.cod == "R")))
             except Exception as e:
                 add(f"{tag}|raises|{type(e).__name__}", f"{tag} level {level}: {type(e).__name__}: {str(e)[:300]}")
         sample = {"dist": tag}
